@@ -295,3 +295,37 @@ def resolved_in_block(body, expr):
                     return n
             return T().visit(copy.deepcopy(expr))
     return copy.deepcopy(expr)
+
+
+_FLIP = {ast.Lt: ast.Gt, ast.LtE: ast.GtE, ast.Gt: ast.Lt, ast.GtE: ast.LtE, ast.Eq: ast.Eq, ast.NotEq: ast.NotEq}
+_SYM = {ast.Lt: '<', ast.LtE: '<=', ast.Gt: '>', ast.GtE: '>=', ast.Eq: '==', ast.NotEq: '!='}
+
+
+def cmp_parts(test, left=None):
+    """(left text, operator symbol, right text) of a single two-operand comparison, oriented so that `left` (a text, or a
+    predicate on texts) is on the left when it occurs on either side; None when `test` is not such a comparison."""
+    if not (isinstance(test, ast.Compare) and len(test.ops) == 1 and type(test.ops[0]) in _FLIP):
+        return None
+    l, r, op = norm_text(test.left), norm_text(test.comparators[0]), type(test.ops[0])
+    if left is not None:
+        pred = left if callable(left) else (lambda t: t == left)
+        if not pred(l) and pred(r):
+            l, r, op = r, l, _FLIP[op]
+        elif not pred(l):
+            return None
+    return l, _SYM[op], r
+
+
+def canon_cmp_text(text):
+    """Canonical text of a comparison given as source text: `b > a` -> `a<b` (orderings use < / <= only)."""
+    try:
+        t = ast.parse(text, mode='eval').body
+    except SyntaxError:
+        return text.replace(' ', '')
+    neg = 0
+    while isinstance(t, ast.UnaryOp) and isinstance(t.op, ast.Not):
+        t = t.operand
+        neg += 1
+    if isinstance(t, ast.Compare) and len(t.ops) == 1 and type(t.ops[0]) in (ast.Gt, ast.GtE):
+        t = ast.Compare(left=t.comparators[0], ops=[_FLIP[type(t.ops[0])]()], comparators=[t.left])
+    return 'not ' * neg + norm_text(t)
